@@ -34,7 +34,7 @@ from vlib.dialects import PARSERS
 
 ID = "C18"
 LEVEL = "exploration"
-BUDGET = {"quick": 75, "thorough": 800}
+BUDGET = {"quick": 200, "thorough": 1200}
 RULE = (
     "case = (parser variant, substitute configuration incl. the wiring of grammar "
     "and decoder {one shared grammar instance; decoder with its own default "
